@@ -41,10 +41,10 @@ def setup(J):
         q = tier == "quick"
         o_full = ["nohang", "clean", "c10", "c04", "c11-roundtrip"]
         o_resume = ["nohang", "clean", "c10", "c04", "c11-roundtrip", "c11-unchanged"]
-        combos = [("g3", 1, 1, "cmd"), ("g3", 1, 1, "func"), ("g7", 1, 1, "cmd"), ("g14a", 1, 1, "cmd"), ("g8", 1, 1, "cmd"), ("g8", 2, 1, "cmd", "escparam"), ("g14", 1, 1, "cmd")]
+        combos = [("g3", 1, 1, "cmd"), ("g3", 1, 1, "func"), ("g7", 1, 1, "cmd"), ("g14a", 1, 1, "cmd"), ("g8", 1, 1, "cmd"), ("g8", 2, 1, "cmd", "escparam"), ("g14", 1, 1, "cmd"), ("g14b", 1, 1, "cmd")]
         if not q:
             combos += [("g6", 1, 2, "cmd"), ("g3", 2, 2, "cmd"), ("g8", 2, 2, "cmd"), ("g14a", 2, 2, "func"), ("g6b", 1, 1, "cmd"), ("g7", 1, 2, "cmd"), ("g3", 2, 2, "func")]
-        runto = {"g3": [["p"]], "g7": [["p"], ["q"]], "g14a": [["p"], ["tg"]], "g14": [["p"]], "g6b": [["p"]], "g6": [["p"], ["q"], ["q", "r"]], "g8": [["p"]]}
+        runto = {"g3": [["p"]], "g7": [["p"], ["q"]], "g14a": [["p"], ["tg"]], "g14": [["p"]], "g14b": [["d"]], "g6b": [["p"]], "g6": [["p"], ["q"], ["q", "r"]], "g8": [["p"]]}
 
         def stage1(ctx, prev):
             jobs = []
